@@ -92,14 +92,15 @@ func (sc *StateCache) commit(bc *BlockCache) {
 	sc.lock.Lock()
 	defer sc.lock.Unlock()
 
+	bc.mu.Lock()
+	defer bc.mu.Unlock()
+
 	_, ok := sc.hashCache.Get(bc.blockHash)
 	if ok {
 		// block already committed
 		return
 	}
 
-	bc.mu.Lock()
-	defer bc.mu.Unlock()
 	ts := time.Now()
 	for key, v := range bc.cache {
 		bvsi, ok := sc.cache.Get(key)
